@@ -205,4 +205,251 @@ theorem quoted_extId (x : ExtIdG) (rest : List Char) : quoted (x.render ++ rest)
   rw [h]
   rcases hq with rfl | rfl <;> simp [quoted]
 
+/-- the definition part of a grammatical entity declaration is read back -/
+theorem entityBody_render (e : EntD) (rest : List Char) (he : e.wf = true) :
+    entityBody e.param.isSome e.name (e.defn.render ++ (e.w3 ++ '>' :: rest)) = some (e.decl, rest) := by
+  simp only [EntD.wf, Bool.and_eq_true] at he
+  obtain ⟨⟨⟨⟨⟨_, _⟩, _⟩, _⟩, hw3⟩, hd⟩ := he
+  have hw3' : e.w3.all isWs = true := hw3
+  unfold entityBody EntD.decl
+  cases hdef : e.defn with
+  | value l =>
+    simp only [hdef] at hd
+    simp only [EntDef.render, quoted_render l _ hd, gt_after_ws e.w3 rest hw3', Option.map_some]
+  | ext id =>
+    simp only [hdef] at hd
+    simp only [EntDef.render, quoted_extId, externalId_render id _ hd]
+    rw [skipWs_ws_then e.w3 '>' rest hw3' (by decide)]
+    simp [lit_ndata, stripPrefix]
+  | ndata id w4 w5 n =>
+    simp only [hdef, Bool.and_eq_true] at hd
+    obtain ⟨⟨⟨⟨hid, hw4⟩, hw5⟩, hn⟩, _⟩ := hd
+    simp only [EntDef.render, List.append_assoc, quoted_extId, externalId_render id _ hid]
+    rw [lit_ndata]
+    simp only [List.cons_append, List.nil_append]
+    rw [skipWs_ws_then w4 'N' _ (wsReq_all hw4) (by decide)]
+    have h1 := stripPrefix_append ['N', 'D', 'A', 'T', 'A'] (w5 ++ (n ++ (e.w3 ++ '>' :: rest)))
+    simp only [List.cons_append, List.nil_append] at h1
+    simp only [h1]
+    obtain ⟨c, t, hnc, hc, hall⟩ := nameOk_head hn
+    have h2 : skipWs (w5 ++ (n ++ (e.w3 ++ '>' :: rest))) = n ++ (e.w3 ++ '>' :: rest) := by
+      rw [hnc]; exact skipWs_ws_then w5 c _ (wsReq_all hw5) (name_not_ws c hc)
+    rw [h2]
+    have h3 : takeName (n ++ (e.w3 ++ '>' :: rest)) = (n, e.w3 ++ '>' :: rest) := by
+      apply takeName_target n _ hall
+      cases hw : e.w3 with
+      | nil => simp only [List.nil_append]; decide
+      | cons a t' =>
+        simp only [List.cons_append]
+        rw [hw] at hw3'
+        simp only [List.all_cons, Bool.and_eq_true] at hw3'
+        exact isWs_not_name a hw3'.1
+    have hne : n.isEmpty = false := by rw [hnc]; rfl
+    simp only [h3, hne, Bool.false_eq_true, ↓reduceIte, gt_after_ws e.w3 rest hw3', Option.map_some]
+
+/-- a grammatical entity declaration (after `<!ENTITY`) is read back as the declaration the
+grammar derives -/
+theorem entityDecl_render (e : EntD) (rest : List Char) (he : e.wf = true) :
+    entityDecl (e.render ++ rest) = some (e.decl, rest) := by
+  have he' := he
+  simp only [EntD.wf, Bool.and_eq_true] at he'
+  obtain ⟨⟨⟨⟨⟨hw1, hp⟩, hn⟩, hw2⟩, _⟩, _⟩ := he'
+  obtain ⟨c, t, hnc, hc, hall⟩ := nameOk_head hn
+  have hne : e.name.isEmpty = false := by rw [hnc]; rfl
+  -- the text after the name
+  have hbody := entityBody_render e rest he
+  have hafter : ∀ X, skipWs (e.w2 ++ X) = skipWs X := fun X => skipWs_ws_append e.w2 X (wsReq_all hw2)
+  have hdefhead : skipWs (e.defn.render ++ (e.w3 ++ '>' :: rest)) = e.defn.render ++ (e.w3 ++ '>' :: rest) := by
+    cases e.defn with
+    | value l =>
+      obtain ⟨q, x, hx, hq, _⟩ := lit_head l (e.w3 ++ '>' :: rest)
+      simp only [EntDef.render]; rw [hx]; exact skipWs_nonws q x hq
+    | ext id =>
+      obtain ⟨q, y, hy, hq⟩ := extId_head id (e.w3 ++ '>' :: rest)
+      simp only [EntDef.render]; rw [hy]
+      rcases hq with rfl | rfl <;> exact skipWs_nonws _ y (by decide)
+    | ndata id w4 w5 n =>
+      obtain ⟨q, y, hy, hq⟩ := extId_head id (w4 ++ ("NDATA".toList ++ (w5 ++ n)) ++ (e.w3 ++ '>' :: rest))
+      simp only [EntDef.render, List.append_assoc] at hy ⊢; rw [hy]
+      rcases hq with rfl | rfl <;> exact skipWs_nonws _ y (by decide)
+  unfold entityDecl EntD.render
+  cases hpar : e.param with
+  | none =>
+    rw [hnc] at hne ⊢
+    simp only [List.append_nil, List.append_assoc, List.cons_append, List.nil_append]
+    rw [skipWs_ws_then e.w1 c _ (wsReq_all hw1) (name_not_ws c hc)]
+    have hpc : entityPercent (c :: (t ++ (e.w2 ++ (e.defn.render ++ (e.w3 ++ ('>' :: rest))))))
+        = (false, c :: (t ++ (e.w2 ++ (e.defn.render ++ (e.w3 ++ ('>' :: rest)))))) := by
+      unfold entityPercent
+      split
+      · next heq =>
+        simp only [List.cons.injEq] at heq
+        rw [heq.1] at hc; exact absurd hc (by decide)
+      · rfl
+    rw [hpc]
+    simp only
+    have htn := takeName_then_ws e.name e.w2 (e.defn.render ++ (e.w3 ++ '>' :: rest)) hn hw2
+    rw [hnc] at htn
+    simp only [List.cons_append] at htn
+    rw [htn]
+    simp only [hne, Bool.false_eq_true, ↓reduceIte, hafter, hdefhead]
+    rw [hpar] at hbody
+    rw [hnc] at hbody
+    exact hbody
+  | some w =>
+    simp only [hpar] at hp
+    rw [hnc] at hne ⊢
+    simp only [List.cons_append, List.append_assoc, List.nil_append]
+    rw [skipWs_ws_then e.w1 '%' _ (wsReq_all hw1) (by decide)]
+    simp only [entityPercent]
+    rw [skipWs_ws_then w c _ (wsReq_all hp) (name_not_ws c hc)]
+    have htn := takeName_then_ws e.name e.w2 (e.defn.render ++ (e.w3 ++ '>' :: rest)) hn hw2
+    rw [hnc] at htn
+    simp only [List.cons_append] at htn
+    rw [htn]
+    simp only [hne, Bool.false_eq_true, ↓reduceIte, hafter, hdefhead]
+    rw [hpar] at hbody
+    rw [hnc] at hbody
+    exact hbody
+
+theorem length_renderChunks (b : List Chunk) : b.length ≤ (renderChunks b).length := by
+  induction b with
+  | nil => simp [renderChunks]
+  | cons c t ih =>
+    have : renderChunks (c :: t) = c.render ++ renderChunks t := by simp [renderChunks]
+    rw [this]
+    cases c with
+    | ch c => simp [Chunk.render]; omega
+    | lit l => simp [Chunk.render, Lit.render]; omega
+
+/-- an abstract declaration (keyword already stripped): skipped with the fuel the scanner uses -/
+theorem skipDecl_self (b : List Chunk) (R : List Char) (hb : b.all Chunk.wf = true) :
+    skipDecl (renderChunks b ++ '>' :: R).length (renderChunks b ++ '>' :: R) = some R := by
+  apply skipDecl_render b R _ hb
+  have := length_renderChunks b
+  simp only [List.length_append, List.length_cons]; omega
+
+theorem reverse_cons_append {α : Type} (d : α) (acc l : List α) :
+    (d :: acc).reverse ++ l = acc.reverse ++ d :: l := by simp
+
+/-- **The internal subset is read back exactly.**  On the text of any internal subset the grammar
+derives (items in any number and order, each preceded by optional white space, closed by `]`),
+`intSubset` returns the declarations the grammar derives — processed entity declarations while
+no parameter-entity reference has been passed, inert ones after — and the text after the `]`. -/
+theorem intSubset_parses : ∀ (items : List (List Char × SubItem)) (wi rest : List Char)
+    (fuel : Nat) (acc : List Decl) (live : Bool),
+    items.length < fuel → subsetWf items = true → wsOk wi = true →
+    intSubset fuel (renderSubset items ++ (wi ++ ']' :: rest)) acc live
+      = (acc.reverse ++ subsetDecls live items, some rest)
+  | [], wi, rest, fuel, acc, live, hf, _, hwi => by
+    obtain ⟨f, rfl⟩ : ∃ f, fuel = f + 1 := ⟨fuel - 1, by simp at hf; omega⟩
+    rw [intSubset]
+    simp only [renderSubset, List.nil_append]
+    rw [skipWs_ws_then wi ']' rest hwi (by decide)]
+    simp [subsetDecls]
+  | (w, it) :: r, wi, rest, fuel, acc, live, hf, hi, hwi => by
+    obtain ⟨f, rfl⟩ : ∃ f, fuel = f + 1 := ⟨fuel - 1, by simp at hf; omega⟩
+    have hf' : r.length < f := by simp at hf; omega
+    simp only [subsetWf, List.all_cons, Bool.and_eq_true] at hi
+    obtain ⟨⟨hw, hit⟩, hr⟩ := hi
+    have hw' : w.all isWs = true := hw
+    have ih := fun acc' live' =>
+      intSubset_parses r wi rest f acc' live' hf' (by simpa [subsetWf] using hr) hwi
+    rw [intSubset]
+    simp only [renderSubset, List.append_assoc]
+    generalize hR : renderSubset r ++ (wi ++ ']' :: rest) = R at ih ⊢
+    cases it with
+    | peRef n =>
+      have hn : nameOk n = true := by simpa [SubItem.wf] using hit
+      obtain ⟨c, t, hnc, hc, hall⟩ := nameOk_head hn
+      simp only [SubItem.render, List.cons_append, List.append_assoc, List.nil_append]
+      rw [skipWs_ws_then w '%' _ hw' (by decide)]
+      have htn : takeName (n ++ ';' :: R) = (n, ';' :: R) :=
+        takeName_target n (';' :: R) hall (by show isNameChar ';' = false; decide)
+      have hne : n.isEmpty = false := by rw [hnc]; rfl
+      split
+      · next heq => exact absurd (List.cons.inj heq).1 (by decide)
+      · next r0 heq =>
+        have hr0 : r0 = n ++ ';' :: R := (List.cons.inj heq).2.symm
+        subst hr0
+        rw [htn]
+        simp only [hne, Bool.false_eq_true, ↓reduceIte]
+        rw [ih]
+        rfl
+      · next h1 h2 => exact absurd rfl (h2 _)
+    | comment b =>
+      have hb : noDD b = true := hit
+      simp only [SubItem.render, List.cons_append, List.append_assoc, List.nil_append]
+      rw [skipWs_ws_then w '<' _ hw' (by decide)]
+      simp only [lit_comment, stripPrefix, beq_self_eq_true, ↓reduceIte, afterComment_render b R hb, ih,
+        subsetDecls, reverse_cons_append]
+      split
+      · next heq => exact absurd (List.cons.inj heq).1 (by decide)
+      · next heq => exact absurd (List.cons.inj heq).1 (by decide)
+      · rfl
+    | pi b =>
+      have hb : noQG b = true := hit
+      simp only [SubItem.render, List.cons_append, List.append_assoc, List.nil_append]
+      rw [skipWs_ws_then w '<' _ hw' (by decide)]
+      have e1 : ('!' == '?') = false := by decide
+      simp only [lit_comment, lit_pi, lit_qg, stripPrefix, beq_self_eq_true, ↓reduceIte, e1,
+        Bool.false_eq_true, after_qg b R hb, ih, subsetDecls, reverse_cons_append]
+      split
+      · next heq => exact absurd (List.cons.inj heq).1 (by decide)
+      · next heq => exact absurd (List.cons.inj heq).1 (by decide)
+      · rfl
+    | entity e =>
+      have he : e.wf = true := hit
+      simp only [SubItem.render, lit_entity, List.cons_append, List.append_assoc, List.nil_append]
+      rw [skipWs_ws_then w '<' _ hw' (by decide)]
+      have e1 : ('-' == 'E') = false := by decide
+      have e2 : ('?' == '!') = false := by decide
+      simp only [lit_comment, lit_pi, stripPrefix, beq_self_eq_true, ↓reduceIte, e1, e2,
+        Bool.false_eq_true, entityDecl_render e R he, ih, subsetDecls, reverse_cons_append]
+      split
+      · next heq => exact absurd (List.cons.inj heq).1 (by decide)
+      · next heq => exact absurd (List.cons.inj heq).1 (by decide)
+      · rfl
+    | element b =>
+      have hb : b.all Chunk.wf = true := hit
+      simp only [SubItem.render, lit_element, List.cons_append, List.append_assoc, List.nil_append]
+      rw [skipWs_ws_then w '<' _ hw' (by decide)]
+      have e1 : ('-' == 'E') = false := by decide
+      have e2 : ('?' == '!') = false := by decide
+      have e3 : ('N' == 'L') = false := by decide
+      simp only [lit_comment, lit_pi, lit_entity, stripPrefix, beq_self_eq_true, ↓reduceIte, e1, e2, e3,
+        Bool.false_eq_true, skipDecl_self b R hb, ih, subsetDecls, reverse_cons_append]
+      split
+      · next heq => exact absurd (List.cons.inj heq).1 (by decide)
+      · next heq => exact absurd (List.cons.inj heq).1 (by decide)
+      · rfl
+    | attlist b =>
+      have hb : b.all Chunk.wf = true := hit
+      simp only [SubItem.render, lit_attlist, List.cons_append, List.append_assoc, List.nil_append]
+      rw [skipWs_ws_then w '<' _ hw' (by decide)]
+      have e1 : ('-' == 'A') = false := by decide
+      have e2 : ('?' == '!') = false := by decide
+      have e3 : ('E' == 'A') = false := by decide
+      simp only [lit_comment, lit_pi, lit_entity, lit_element, stripPrefix, beq_self_eq_true, ↓reduceIte,
+        e1, e2, e3, Bool.false_eq_true, skipDecl_self b R hb, ih, subsetDecls, reverse_cons_append]
+      split
+      · next heq => exact absurd (List.cons.inj heq).1 (by decide)
+      · next heq => exact absurd (List.cons.inj heq).1 (by decide)
+      · rfl
+    | «notation» b =>
+      have hb : b.all Chunk.wf = true := hit
+      simp only [SubItem.render, lit_notation, List.cons_append, List.append_assoc, List.nil_append]
+      rw [skipWs_ws_then w '<' _ hw' (by decide)]
+      have e1 : ('-' == 'N') = false := by decide
+      have e2 : ('?' == '!') = false := by decide
+      have e3 : ('E' == 'N') = false := by decide
+      have e4 : ('A' == 'N') = false := by decide
+      simp only [lit_comment, lit_pi, lit_entity, lit_element, lit_attlist, stripPrefix, beq_self_eq_true,
+        ↓reduceIte, e1, e2, e3, e4, Bool.false_eq_true, skipDecl_self b R hb, ih, subsetDecls,
+        reverse_cons_append]
+      split
+      · next heq => exact absurd (List.cons.inj heq).1 (by decide)
+      · next heq => exact absurd (List.cons.inj heq).1 (by decide)
+      · rfl
+
 end EPV.Globals.XmlText
